@@ -34,7 +34,7 @@ func c04R1R2(p *Prog, r *Report) {
 	r.Rule(r1, "the replay filter is updated only by authenticated, validated packets: MustAdd and NewSlidingWindowFilter are reached only on the err == nil edges of the AEAD open and of the message-header parser; when a filter exists the open is reached only on the IsOk(id) == true edge for the same packet ID later passed to MustAdd, on the same filter; a refused ID is an error")
 	r.Rule(r2, "failing packets are effect-free: every store to a field of the unpacker is reached only after the AEAD open and the header parse succeeded, so forged, stale, wrong-type or foreign-session packets cannot change which later packets are accepted")
 	for _, recv := range []string{"ShadowPacketClientUnpacker", "ShadowPacketServerUnpacker"} {
-		fc := p.Func("ss2022", recv, "UnpackInPlace")
+		fc := p.Inlined(p.Func("ss2022", recv, "UnpackInPlace"))
 		info := fc.Info()
 		prefix := "ss2022.(*" + recv + ").UnpackInPlace"
 		var open, parse *CallSite
@@ -176,7 +176,7 @@ func c04R1R2(p *Prog, r *Report) {
 func c04R3(p *Prog, r *Report) {
 	const rule = "C04-R3"
 	r.Rule(rule, "server-session change on the client: a packet for an unknown server session is considered only past the false edge of the throttle test time.Since(oldServerSessionLastSeenTime) < window with window >= the replay window; on acceptance the current session's ID, cipher and filter move to the old slot each from its own current field before the current slot is overwritten, the last-seen time is refreshed for old-session and new-session packets, and the new session's filter is a fresh one")
-	fc := p.Func("ss2022", "ShadowPacketClientUnpacker", "UnpackInPlace")
+	fc := p.Inlined(p.Func("ss2022", "ShadowPacketClientUnpacker", "UnpackInPlace"))
 	info := fc.Info()
 	recv := fc.RecvObj()
 	prefix := "ss2022.(*ShadowPacketClientUnpacker).UnpackInPlace"
@@ -314,7 +314,7 @@ func c04R4(p *Prog, r *Report) {
 	const rule = "C04-R4"
 	r.Rule(rule, "message-header validation: ParseUDPClientMessageHeader / ParseUDPServerMessageHeader reach a success return only past the direction's type byte test, the timestamp validation and (server messages) the client-session-ID equality test")
 	for _, spec := range [][3]string{{"ParseUDPClientMessageHeader", "HeaderTypeClientPacket", ""}, {"ParseUDPServerMessageHeader", "HeaderTypeServerPacket", "csid"}} {
-		fc := p.Func("ss2022", "", spec[0])
+		fc := p.Inlined(p.Func("ss2022", "", spec[0]))
 		info := fc.Info()
 		var typeEdges, csidEdges []Edge
 		for _, v := range fc.G.V {
@@ -397,7 +397,7 @@ func c04R4(p *Prog, r *Report) {
 		r.Check(n >= 1, rule, "ss2022."+spec[0]+":has-success-return", p.posStr(fc.Body.Pos()), "has a success return", "no success return")
 	}
 	// the client passes its own session id
-	cu := p.Func("ss2022", "ShadowPacketClientUnpacker", "UnpackInPlace")
+	cu := p.Inlined(p.Func("ss2022", "ShadowPacketClientUnpacker", "UnpackInPlace"))
 	for _, cs := range cu.CallsTo(isFn(mp("ss2022"), "", "ParseUDPServerMessageHeader")) {
 		sel, ok := ast.Unparen(cs.Call.Args[2]).(*ast.SelectorExpr)
 		r.Check(ok && sel.Sel.Name == "csid" && objOf(cu.Info(), sel.X) == cu.RecvObj(), rule, "ss2022.(*ShadowPacketClientUnpacker).UnpackInPlace:passes-own-csid", cs.Pos(), "expects p.csid", "the session ID expected in server messages is not this client's session ID")
